@@ -33,7 +33,7 @@ ASSUMPTIONS = [
 ]
 
 INVALID = ["none"] * 12 + ["bad_yaml", "missing_file", "no_nodes", "unknown_processor", "unknown_param", "probe_no_key",
-           "type_mismatch", "type_mismatch_across_ctx", "deleted_key", "missing_ctx_key", "use_before_create_missing",
+           "type_mismatch", "type_mismatch_across_ctx", "deleted_key", "missing_ctx_key", "use_before_create_missing", "create_and_require_missing",
            "rs_mismatched", "rs_duplicate", "rs_missing_source", "rs_cap", "bad_set_key", "usage"]
 
 
@@ -106,6 +106,9 @@ def build(case: Dict[str, Any]) -> Dict[str, Any]:
         nodes.insert(1, {"p": "FloatAddOperation"})
         nodes.insert(2, {"p": "FloatCollectValueProbe", "context_key": "addend"})
         required.append("addend")  # needed before the probe creates it
+    elif inv == "create_and_require_missing":
+        nodes.insert(1, {"p": 'template:"{outdir}_results":outdir'})  # reads and rewrites the same key
+        required.append("outdir")
     elif inv == "unknown_processor":
         nodes.insert(1, {"p": "FloatSquareOperation"})
     required = list(dict.fromkeys(required))
@@ -113,7 +116,7 @@ def build(case: Dict[str, Any]) -> Dict[str, Any]:
     n = case["rs_runs"]
     rs = None
     fail_at = case["fail_at"] if (case["fail_at"] is not None and "divisor" in required) else None
-    ctx_values: Dict[str, Any] = {"factor": 3.0, "divisor": 2.0, "idx": 0, "spare": 1.0, "addend": 1.0}
+    ctx_values: Dict[str, Any] = {"factor": 3.0, "divisor": 2.0, "idx": 0, "spare": 1.0, "addend": 1.0, "outdir": "o"}
     rs_keys: List[str] = []
     if n > 0:
         if fail_at is not None and fail_at >= n:
@@ -150,8 +153,8 @@ def build(case: Dict[str, Any]) -> Dict[str, Any]:
     need_cli = [k for k in required if k not in rs_keys]
     supplied = list(need_cli)
     dropped = None
-    if inv in ("missing_ctx_key", "use_before_create_missing") or case["ctx_mode"] == "drop_one":
-        prefer = "addend" if inv == "use_before_create_missing" else None
+    if inv in ("missing_ctx_key", "use_before_create_missing", "create_and_require_missing") or case["ctx_mode"] == "drop_one":
+        prefer = "addend" if inv == "use_before_create_missing" else "outdir" if inv == "create_and_require_missing" else None
         if supplied:
             dropped = prefer if prefer in supplied else supplied[-1]
             supplied.remove(dropped)
